@@ -1938,7 +1938,13 @@ pub fn decompress_with_limit(
             }),
 
             WriteLenBytesToEnd => generate_state!(state, 'state_machine, {
-                if out_buf.bytes_left() > 0 {
+                if (l.dist as usize > out_buf.position() &&
+                    (flags & TINFL_FLAG_USING_NON_WRAPPING_OUTPUT_BUF != 0)) || (l.dist as usize > out_buf.get_ref().len())
+                {
+                    // The match was started in an earlier call; the output position or
+                    // buffer given now does not contain the data it refers to.
+                    Action::Jump(DistanceOutOfBounds)
+                } else if out_buf.bytes_left() > 0 {
                     let out_pos = out_buf.position();
                     let source_pos = out_buf.position()
                         .wrapping_sub(l.dist as usize) & out_buf_size_mask;
